@@ -2896,19 +2896,35 @@ protected:
             format( valCopy);
             auto const  pos = boost::lexical_cast< size_t>( valCopy);
             if (pos >= mDestVar.size())
-               mDestVar.resize( pos * 1.5);
+               mDestVar.resize( grownSize( pos));
             mDestVar[ pos] = !mResetFlags;
          } else
          {
             auto const  pos = boost::lexical_cast< size_t>( listVal);
             if (pos >= mDestVar.size())
-               mDestVar.resize( pos * 1.5);
+               mDestVar.resize( grownSize( pos));
             mDestVar[ pos] = !mResetFlags;
          } // end if
       } // end for
    } // TypedArg< std::vector< bool>>::assign
 
 private:
+   /// Returns the new size of the destination vector when it has to grow in
+   /// order to contain the position \a pos: at least pos + 1, one and a half
+   /// times the position otherwise, computed without floating point arithmetic
+   /// (the conversion of a too big double value back to size_t is undefined).
+   ///
+   /// @param[in]  pos  The position that should be accessible afterwards.
+   /// @return  The size to resize the vector to.
+   /// @throws  std::length_error if the position is too big for the vector.
+   size_t grownSize( size_t pos) const
+   {
+      if (pos >= mDestVar.max_size() / 2)
+         throw std::length_error( "position too big for variable '" + mVarName
+            + "'");
+      return std::max( pos + 1, pos + pos / 2);
+   } // TypedArg< std::vector< bool>>::grownSize
+
    /// Returns if no bit is set.
    ///
    /// @return  \c true if no bit is set.
